@@ -269,17 +269,14 @@ DoubleSupport::modulus(
     {
         return getNaN();
     }
-    else if (long(theLHS) == theLHS && long(theRHS) == theRHS)
-    {
-        return long(theLHS) % long(theRHS);
-    }
     else
     {
-        double  theDummy;
-
-        double  theResult = divide(theLHS, theRHS);
-
-        return std::modf(theResult, &theDummy) * theRHS;
+        // The remainder from a truncating division, which has the
+        // sign of the dividend, like the % operator in Java and
+        // ECMAScript.  fmod() is exact, where multiplying the
+        // fractional part of the quotient by the divisor is not,
+        // and LONG_MIN % -1 traps.
+        return std::fmod(theLHS, theRHS);
     }
 }
 
